@@ -34,6 +34,8 @@ const A_DEDENT: &[&str] = &[" ", "\t", "a", "\n", "\r\n", "b", "\u{3000}"];
 const A_INDENT: &[&str] = &[" ", "\t", "a", "\n", "\r", "é", "\u{3000}"];
 const A_UNFILL: &[&str] = &[" ", "a", "\n", "\r\n", ">", "-", "*", "é", "\r", "/"];
 const A_COLOUR_WORDS: &[&str] = &["ab", "c", "你好", "d-e", "fgh", "-"];
+/// lists of line widths for the dispatch contracts: one to four entries, with equal neighbours inside and at the end
+const WIDTH_LISTS: &[&str] = &["3", "5,9", "4,4", "2,2,9", "5,5,20", "9,3,3", "3,9,3,9", "2,2,2,7", "", "0,4"];
 const VOCAB: &[&str] = &["a", "bb", "ccc", "dddd", "é", "你好", "好"];
 
 fn widths_small() -> Vec<usize> {
@@ -102,8 +104,11 @@ impl Ctx {
         F: Fn(&TextCase) -> Outcome + Sync,
     {
         self.text_grid(name, clause, alphabet, len, grid.clone(), widths.clone(), &check);
-        self.text_grid(&format!("{}.big_alphabet", name), &format!("{} (broad alphabet)", clause), A_BIG, big_len, grid.clone(), widths, &check);
-        self.text_random(&format!("{}.random", name), &format!("{} (long random texts, sampled)", clause), A_BIG, 40, nrandom, grid, &check);
+        // the broad-alphabet and random passes also run every option combination with the CRLF line ending (the alphabet has "\r\n", a lone "\r" and "\n")
+        let mut both = grid.clone();
+        both.extend(grid.iter().cloned().map(|mut o| { o.crlf = true; o }));
+        self.text_grid(&format!("{}.big_alphabet", name), &format!("{} (broad alphabet, LF and CRLF line ending)", clause), A_BIG, big_len, both.clone(), widths, &check);
+        self.text_random(&format!("{}.random", name), &format!("{} (long random texts, sampled, LF and CRLF line ending)", clause), A_BIG, 40, nrandom, both, &check);
     }
 
     fn strings<F>(&mut self, name: &str, clause: &str, alphabet: &'static [&'static str], len: u32, ns_n: Vec<usize>, auxes: Vec<&'static str>, check: F)
@@ -282,7 +287,8 @@ fn refill_cases(ctx: &mut Ctx, name: &str, clause: &str, maxwords: u32, check: i
 }
 
 fn col_cases(ctx: &mut Ctx, maxlen: u32) {
-    const A: &[&str] = &[" ", "a", "bcd", "你", "\n"];
+    // incl. an all-ASCII cell with an escape sequence / a zero-width control character (width != byte length, yet is_ascii())
+    const A: &[&str] = &[" ", "a", "bcd", "你", "\n", "\x1b[1m", "\t", "\u{301}"];
     let gaps: &[(&'static str, &'static str, &'static str)] = &[("", "", ""), ("| ", " | ", " |"), ("你", "你", ""), ("", "  ", "x")];
     let ns = count_strings(A.len() as u64, maxlen);
     let widths = [0usize, 1, 2, 5, 9, 14, 23];
@@ -394,6 +400,8 @@ fn run_property(prop: &str, ctx: &mut Ctx) {
                 let pens = vec![DEFAULT_PEN, [0, 1, 1, 0, 0], [3, 2, 2, 7, 5], [1000, 0, 4, 25, 0]];
                 frag_cases(ctx, "C03.optimal_fit.minimal_cost", "cost(returned) == min over all 2^(n-1) arrangements (documented cost model, exact integers) and <= cost(first-fit)",
                     l(4, 5), c03_optimal, true, pens);
+                ctx.strings("C03.dispatch.optimal_fit", "WrapAlgorithm::OptimalFit(default).wrap(words, widths) == wrap_optimal_fit(words, widths as f64, default penalties)",
+                    &["a ", "bb ", "ccc ", "dddd ", "e"], l(6, 7), vec![1], WIDTH_LISTS.to_vec(), props_frag::dispatch_same);
                 frag_cases(ctx, "A6.smawk.call_shape", "assumed contract A6 of smawk::online_column_minima (call arguments and returned table shape)", l(4, 5), a6_smawk_shape, false, vec![DEFAULT_PEN]);
                 frag_random(ctx, "A6.smawk.call_shape.random", "same, longer random sequences", if th { 2_000_000 } else { 40_000 }, 40, true, a6_smawk_shape, false);
                 frag_random(ctx, "C03.optimal_fit.minimal_cost.random", "same, random sequences", if th { 2_000_000 } else { 40_000 }, if th { 14 } else { 10 }, false, c03_optimal, true);
@@ -433,6 +441,8 @@ fn run_property(prop: &str, ctx: &mut Ctx) {
         "C07" => {
             frag_cases(ctx, "C07.first_fit.greedy", "a new line starts exactly when the line is non-empty and acc + width + penalty > line width", l(4, 6), c07_greedy, false, vec![DEFAULT_PEN]);
             frag_random(ctx, "C07.first_fit.greedy.random", "same, arbitrary finite f64", if th { 3_000_000 } else { 60_000 }, 16, true, c07_greedy, false);
+            ctx.strings("C07.dispatch.first_fit", "WrapAlgorithm::FirstFit.wrap(words, widths) == wrap_first_fit(words, widths as f64): every listed width reaches the algorithm, in order",
+                &["a ", "bb ", "ccc ", "dddd ", "e"], l(6, 7), vec![0], WIDTH_LISTS.to_vec(), props_frag::dispatch_same);
             ctx.wrap_suite("C07.wrap.greedy_text", "ASCII separator, hyphen or no splitter, no force-breaking: wrap == the greedy rule applied to the space-delimited words cut at the splitter's split points",
                 A_WRAP, l(4, 5), first_fit_only(option_grid(true)).into_iter().filter(|o| o.sep == Sep::Ascii && o.spl != Spl::Every2 && !o.break_words).collect(), vec![0, 1, 2, 3, 4, 5, 6, 8], l(3, 3), if th { 2_000_000 } else { 60_000 }, props_wrap::c07_text);
         }
@@ -447,7 +457,7 @@ fn run_property(prop: &str, ctx: &mut Ctx) {
             for o in g.iter_mut() {
                 o.crlf = true;
             }
-            ctx.text_grid("C09.wrap.paragraphs.crlf", "same with the CRLF line ending", &[" ", "a", "\r\n", "\n", "bc", "\t"], l(5, 6), g, vec![0, 1, 2, 3, 5], props_wrap::c09_paragraphs);
+            ctx.text_grid("C09.wrap.paragraphs.crlf", "same with the CRLF line ending", &[" ", "a", "\r\n", "\n", "bc", "\t", "\r"], l(5, 6), g, vec![0, 1, 2, 3, 5], props_wrap::c09_paragraphs);
         }
         "C10" => {
             let scope = format!("[{}] every Unicode scalar value (0x110000 code points in blocks of 256, surrogates skipped)", FLAVOR);
@@ -546,6 +556,7 @@ fn replay(path: &str) -> i32 {
             "C11.find_words.unicode" => props_words::c11_unicode(&StrCase::from_json(case)),
             #[cfg(feature = "full")]
             "A13.linebreaks.shape" => props_words::a13_linebreaks_shape(&StrCase::from_json(case)),
+            "C07.dispatch.first_fit" | "C03.dispatch.optimal_fit" => props_frag::dispatch_same(&StrCase::from_json(case)),
             "C12.split_words" => props_words::c12_split(&StrCase::from_json(case)),
             "C12.break_apart" => props_words::c12_break(&StrCase::from_json(case)),
             "C13.wrap.ansi_transparent" => props_wrap::c13_ansi(&TextCase::from_json(case)),
